@@ -46,6 +46,16 @@ def cells(tier):
         for off in (0.001, 0.5) if kind != "mem" else ():  # the in-memory broker has no call that can fail
             for mk in KINDS:
                 out.append(dict(kind=kind, ttl=1.0 + (1.0 if mk == "retried" else 0.0), off=off, mk=mk, fault=True))
+        # a backlog that a worker finds when it starts: every word over {E = expired meanwhile, L = live with a
+        # long ttl, N = no ttl}, all in one priority or alternating between two
+        import itertools
+        for n in range(2, (4 if tier == "quick" else 5) + 1):
+            for word in itertools.product("ELN", repeat=n):
+                if "E" not in word:
+                    continue
+                for prios in ("same", "alt"):
+                    for tl in (1, 2):
+                        out.append(dict(kind=kind, mk="backlog", word="".join(word), prios=prios, tasks_limit=tl))
     return out
 
 
@@ -58,7 +68,87 @@ def execute(cell):
         return _execute(cell)
 
 
+def _execute_backlog(cell):
+    kind, word = cell["kind"], cell["word"]
+    x = Exec(kind)
+    w = x.world
+    loop = x.loop
+    viol = []
+    entered = []
+    try:
+        worker = Worker(_connection=w.conn, graceful_shutdown_time=0.05, tasks_limit=cell["tasks_limit"])
+
+        async def job(m: MessageDependency):
+            entered.append(m.key.id_)
+            await asyncio.sleep(0.01)
+
+        worker.actor(job, name="job", queue="q", converter=BasicConverter)
+
+        async def setup():
+            await w.connect()
+            await w.broker.queue_declare("q")
+            for i, ch in enumerate(word):
+                prio = 5 if cell["prios"] == "same" or i % 2 == 0 else 9
+                p = w.params(ttl={"E": 1.0, "L": 600.0, "N": None}[ch])
+                await w.broker.enqueue(w.key(f"m{i}", "job", "q", prio), "", p)
+
+        st, v = x.run(setup())
+        assert st == "ok", (st, v)
+        loop.run_for(1.5)  # the E messages have expired, nobody was listening
+        loop.call_later(4.0, lambda: int(SIGTERM) in loop._sig and loop.raise_signal(SIGTERM))
+        st, v = x.run(worker.run(), max_iters=2_000_000)
+        if st != "ok":
+            viol.append(("worker-died", f"Worker.run() ended with {st}: {v!r}"))
+        x.settle(0.05)
+        obs = w.observe()
+        summary = dict(entered=sorted(entered), places={})
+        for i, ch in enumerate(word):
+            mid = f"m{i}"
+            places = [e["place"] for e in obs.get(mid, [])]
+            summary["places"][mid] = places
+            n = entered.count(mid)
+            if ch == "E":
+                if n:
+                    viol.append(("executed-expired", f"{mid} (position {i} of backlog {word}) had expired 0.5 s before a worker listened but its actor ran"))
+                elif places != ["dead"]:
+                    viol.append(("neither", f"expired {mid} (position {i} of backlog {word}) was not executed and is in {places}, expected the dead category"))
+            else:
+                if n != 1:
+                    viol.append(("dropped-live", f"live {mid} (position {i} of backlog {word}) was executed {n} times within 4 s of listening; it is in {places}"))
+                elif places:
+                    viol.append(("dropped-live", f"live {mid} (position {i} of backlog {word}) was executed but is still in {places}"))
+        if not viol and "E" in word:
+            c = w.broker.get_consumer("q", None, None, MessageCategory.DEAD)
+
+            async def read_dead():
+                got = []
+                await c.start()
+                try:
+                    for _ in range(word.count("E")):
+                        k, _, _ = await asyncio.wait_for(c.consume(), 1.5)
+                        got.append(k.id_)
+                except asyncio.TimeoutError:
+                    pass
+                for id_ in got:
+                    i = int(id_[1:])
+                    await w.broker.reject(w.key(id_, "job", "q", 5 if cell["prios"] == "same" or i % 2 == 0 else 9))
+                await c.finish()
+                return got
+
+            st, got = x.run(read_dead())
+            want = sorted(f"m{i}" for i, ch in enumerate(word) if ch == "E")
+            summary["dead_readable"] = got
+            if st != "ok" or sorted(got) != want:
+                viol.append(("dead-unreadable", f"expired messages {want} of backlog {word} sit in the dead category but a DEAD consumer returned {got} ({st})"))
+        handles = loop.handles
+    finally:
+        x.close()
+    return handles, viol, summary
+
+
 def _execute(cell):
+    if cell["mk"] == "backlog":
+        return _execute_backlog(cell)
     kind, ttl, off, mk = cell["kind"], cell["ttl"], cell["off"], cell["mk"]
     x = Exec(kind)
     w = x.world
